@@ -10,7 +10,10 @@ import z3
 
 from . import kernel as K
 from . import strings as S
-from .kernel import BOOL, INT, NULLT, REAL, STR, Cell, Ctx, Rel, SortKey, Unsupported
+import datetime as _dt
+import re as _re
+
+from .kernel import BOOL, DATE, DT, DT0, DTX, INT, NULLT, REAL, STR, TEMPORAL, Cell, Ctx, Rel, SortKey, Unsupported
 from .sqlparse import parse
 
 AGG_FUNCS = {"sum", "count", "avg", "total", "group_concat", "string_agg"}
@@ -42,8 +45,148 @@ class SqliteSem:
         self.storage = {}  # output label -> static storage kind (for C12)
         self.flags = set()
 
-    def run(self, sql: str) -> Rel:
-        return self.stmt(parse(sql))
+    def run(self, sql: str, result_kinds=None) -> Rel:
+        """result_kinds: output name -> kind of the SQLAlchemy result processor of that
+        column ('date' | 'datetime' | 'bool' | None), read from the real Select; it decides
+        how the driver-level value (SQLite has only INTEGER / REAL / TEXT) reaches Python."""
+        out = self.stmt(parse(sql))
+        for nme in out.names:
+            kind = (result_kinds or {}).get(nme, "legacy" if result_kinds is None else None)
+            out.data[nme] = [self.processed(c, kind) for c in out.data[nme]]
+        return out
+
+    def processed(self, c: Cell, kind) -> Cell:
+        if c.ty == NULLT:
+            return c
+        if kind == "legacy":
+            return Cell(DT, c.null, c.val) if c.ty == DT0 else (self.decode_x(c) if c.ty == DTX else c)
+        if kind == "datetime":  # datetime.fromisoformat: all three text forms parse
+            if c.ty == STR:
+                c = self.temporal_lit(c) or c
+            if c.ty == DATE:
+                return Cell(DT, c.null, c.val * K.US_DAY)
+            if c.ty in (DT, DT0):
+                return Cell(DT, c.null, c.val)
+            if c.ty == DTX:
+                return self.decode_x(c)
+            raise Unsupported(f"DateTime result processor on {c.ty}")
+        if kind == "date":  # date.fromisoformat: only 'YYYY-MM-DD'
+            if c.ty == STR:
+                c = self.temporal_lit(c) or c
+            if c.ty == DATE:
+                return c
+            raise Unsupported(f"Date result processor on {c.ty} text")
+        if kind == "bool":  # int -> bool
+            if c.ty == INT:
+                return Cell(BOOL, c.null, c.val != 0)
+            return c
+        # no processor: the driver value as it is
+        if c.ty == BOOL:
+            return K.as_ty(c, INT)
+        if c.ty in TEMPORAL:
+            return self.to_text(c)
+        return c
+
+    # ------------------------------------------------------------------ temporal text
+    # SQLite has no temporal storage class: SQLAlchemy stores Date as 'YYYY-MM-DD' and
+    # DateTime as 'YYYY-MM-DD HH:MM:SS.ffffff'; date()/datetime() return 'YYYY-MM-DD' /
+    # 'YYYY-MM-DD HH:MM:SS'.  Cells carry the instant (kernel DATE / DT payload) and the
+    # static text form (DATE / DT / DT0); comparisons are *text* comparisons.
+    _RE_DATE = _re.compile(r"\d{4}-\d{2}-\d{2}$")
+    _RE_DT0 = _re.compile(r"\d{4}-\d{2}-\d{2} \d{2}:\d{2}:\d{2}$")
+    _RE_DT6 = _re.compile(r"\d{4}-\d{2}-\d{2} \d{2}:\d{2}:\d{2}\.\d{6}$")
+
+    def temporal_lit(self, c: Cell):
+        """a constant TEXT cell in one of the three temporal text forms -> temporal cell"""
+        if c.ty != STR or not z3.is_string_value(c.val):
+            return None
+        t = c.val.as_string()
+        try:
+            if self._RE_DATE.match(t):
+                return Cell(DATE, c.null, z3.IntVal(K.date_to_days(_dt.date.fromisoformat(t))))
+            if self._RE_DT0.match(t):
+                return Cell(DT0, c.null, z3.IntVal(K.dt_to_us(_dt.datetime.fromisoformat(t))))
+            if self._RE_DT6.match(t):
+                return Cell(DT, c.null, z3.IntVal(K.dt_to_us(_dt.datetime.fromisoformat(t))))
+        except ValueError:
+            return None
+        return None
+
+    def harmonise(self, cells):
+        """text constants next to temporal operands are temporal text"""
+        if not any(c.ty in TEMPORAL for c in cells):
+            return cells
+        out = []
+        for c in cells:
+            if c.ty == STR:
+                t = self.temporal_lit(c)
+                if t is None:
+                    raise Unsupported("temporal value combined with non-temporal text")
+                c = t
+            out.append(c)
+        tys = {c.ty for c in out if c.ty != NULLT}
+        if len(tys) > 1:
+            self.flags.add("mixed-temporal-text")
+        return out
+
+    @staticmethod
+    def text_key(c: Cell):
+        """Int term whose order is the BINARY text order of the temporal text of c"""
+        M = 1_000_000
+        D = 1 + 86_400 * (M + 2)
+        if c.ty == DATE:
+            return c.val * D
+        inst = c.val / 4 if c.ty == DTX else c.val
+        day, sod = inst / K.US_DAY, inst % K.US_DAY
+        sec, us = sod / M, sod % M
+        k0 = day * D + 1 + sec * (M + 2)
+        if c.ty == DT0:
+            return k0
+        if c.ty == DT:
+            return k0 + 1 + us
+        form = c.val % 4
+        return K.If(form == 0, day * D, K.If(form == 1, k0, k0 + 1 + us))
+
+    @staticmethod
+    def decode_x(c: Cell) -> Cell:
+        """instant (DT) of a DTX cell (payload: instant * 4 + form; form 0 = date text,
+        1 = datetime text without fraction, 2 = with fraction)"""
+        return Cell(DT, c.null, c.val / 4)
+
+    def to_x(self, c: Cell) -> Cell:
+        if c.ty == DATE:
+            return Cell(DTX, c.null, c.val * K.US_DAY * 4)
+        if c.ty == DT0:
+            return Cell(DTX, c.null, c.val * 4 + 1)
+        if c.ty == DT:
+            return Cell(DTX, c.null, c.val * 4 + 2)
+        return c
+
+    def compare(self, op, a: Cell, b: Cell) -> Cell:
+        a, b = self.harmonise([a, b])
+        if a.ty in TEMPORAL and b.ty in TEMPORAL and a.ty != b.ty:
+            ka, kb = self.text_key(a), self.text_key(b)
+            return Cell(BOOL, K.Or(a.null, b.null), K._val_cmp(op, INT, ka, kb))
+        return K.compare(op, a, b)
+
+    def h_extreme_text(self, kind, cells):
+        """min / max of temporal texts of different forms: BINARY text order"""
+        cells = [c for c in cells if c.ty != NULLT] or cells
+        res = cells[0]
+        for c in cells[1:]:
+            better = K._val_cmp("<" if kind == "min" else ">", INT, self.text_key(c), self.text_key(res))
+            take_c = K.And(K.Not(c.null), K.Or(res.null, better))
+            res = Cell(DTX, K.And(res.null, c.null), K.If(take_c, c.val, res.val))
+        return res
+
+    def same_form(self, cells, what):
+        cells = self.harmonise(cells)
+        tys = {c.ty for c in cells if c.ty in TEMPORAL}
+        if len(tys) > 1:
+            # the result's text form differs per row: carry the text-order key
+            self.constructs.add(f"sql:mixed-temporal-text:{what}")
+            return [self.to_x(c) for c in cells]
+        return cells
 
     # ------------------------------------------------------------------ statements
     def stmt(self, st) -> Rel:
@@ -105,6 +248,8 @@ class SqliteSem:
             else:
                 raise Unsupported("ORDER BY expression on compound select")
             nulls_last = t["desc"] if t["nulls"] is None else (t["nulls"] == "last")
+            if any(c.ty == DTX for c in cells):
+                cells = [Cell(INT, c.null, self.text_key(c)) for c in cells]
             keys.append(SortKey(cells, t["desc"], nulls_last))
         return keys, has_random
 
@@ -275,7 +420,10 @@ class SqliteSem:
         k = e[0]
         ev = lambda x: self.expr(x, env, ctx, gctx)  # noqa: E731
         if k == "lit":
-            return [K.lit(e[1])] * n
+            c = K.lit(e[1])
+            # a text literal in one of the three temporal text forms is a temporal value
+            # (the backend renders date / datetime literals this way)
+            return [self.temporal_lit(c) or c] * n
         if k == "col":
             return list(env.rel.data[env.resolve(e[1], e[2])])
         if k == "neg":
@@ -291,7 +439,7 @@ class SqliteSem:
             return [K.arith("+", self.to_text(a[i]), self.to_text(b[i])) for i in range(n)]
         if k == "cmp":
             a, b = ev(e[2]), ev(e[3])
-            return [K.compare(e[1], a[i], b[i]) for i in range(n)]
+            return [self.compare(e[1], a[i], b[i]) for i in range(n)]
         if k == "and":
             a, b = ev(e[1]), ev(e[2])
             return [K.k_and(a[i], b[i]) for i in range(n)]
@@ -314,7 +462,7 @@ class SqliteSem:
                     out.append(r)
                     continue
                 for it in items:
-                    r = K.k_or(r, K.compare("==", x[i], it[i]))
+                    r = K.k_or(r, self.compare("==", x[i], it[i]))
                 out.append(K.k_not(r) if e[1] else r)
             return out
         if k == "like":
@@ -332,9 +480,13 @@ class SqliteSem:
             els = ev(e[2]) if e[2] is not None else [K.lit(None)] * n
             out = []
             for i in range(n):
-                out.append(K.c_select([(K.is_true(c[i]), v[i]) for c, v in whens], els[i]))
+                vals = self.same_form([v[i] for _, v in whens] + [els[i]], "CASE")
+                out.append(K.c_select([(K.is_true(c[i]), vals[j]) for j, (c, _) in enumerate(whens)], vals[-1]))
             return out
         if k == "cast":
+            inner = e[1]
+            if inner[0] == "call" and inner[1] == "strftime" and e[2].upper() in ("INTEGER", "BIGINT", "INT"):
+                return self.strftime(inner, ev, as_int=True)
             return [self.cast(c, e[2]) for c in ev(e[1])]
         if k == "call":
             return self.call(e, env, ctx, gctx)
@@ -361,6 +513,13 @@ class SqliteSem:
             return S.int_to_str(K.as_ty(c, INT))
         if c.ty == REAL:
             return S.real_to_str(c)
+        if c.ty == DATE:
+            return S.date_to_str(c)
+        if c.ty in (DT, DT0):
+            return S.dt_to_str(c, frac=(c.ty == DT))
+        if c.ty == DTX:
+            inst, form = self.decode_x(c), c.val % 4
+            return Cell(STR, c.null, K.If(form == 0, S.date_text(inst.val / K.US_DAY), K.If(form == 1, S.dt_to_str(inst, frac=False).val, S.dt_to_str(inst).val)))
         raise Unsupported("real -> text")
 
     def arith(self, op, a: Cell, b: Cell) -> Cell:
@@ -392,6 +551,11 @@ class SqliteSem:
             if c.ty in (INT, REAL, BOOL, NULLT):
                 return c
             raise Unsupported("text -> numeric")
+        elif t in ("DATE", "DATETIME", "TIMESTAMP"):
+            if c.ty == NULLT:
+                return c
+            # NUMERIC affinity: a temporal *text* is converted to its leading integer
+            raise Unsupported(f"CAST AS {ty} (numeric affinity on temporal text)")
         else:
             raise Unsupported(f"CAST AS {ty}")
         self.constructs.add(f"sql:CAST {tgt}")
@@ -432,13 +596,23 @@ class SqliteSem:
         if name == "abs":
             return [K.c_abs(c) for c in a[0]]
         if name == "coalesce":
-            return [K.coalesce([x[i] for x in a]) for i in range(n)]
+            return [K.coalesce(self.same_form([x[i] for x in a], "coalesce")) for i in range(n)]
+        if name == "date":
+            if len(a) != 1:
+                raise Unsupported("date() with modifiers")
+            return [self.sql_date(c) for c in a[0]]
+        if name == "datetime":
+            if len(a) != 1:
+                raise Unsupported("datetime() with modifiers")
+            return [self.sql_datetime(c) for c in a[0]]
+        if name == "strftime":
+            return self.strftime(e, ev, as_int=False)
         if name in ("max", "min"):
             # scalar multi-argument form: NULL if any argument is NULL
             out = []
             for i in range(n):
-                cells = [x[i] for x in a]
-                r = K.h_extreme(name, cells)
+                cells = self.same_form([x[i] for x in a], name)
+                r = self.h_extreme_text(name, cells) if any(c.ty == DTX for c in cells) else K.h_extreme(name, cells)
                 anynull = K.Or(*[c.null for c in cells])
                 out.append(Cell(r.ty, K.Or(r.null, anynull), r.val) if r.ty != NULLT else r)
             return out
@@ -490,12 +664,92 @@ class SqliteSem:
             return [Cell(INT, K.FALSE, K.fresh("random", z3.IntSort())) for _ in range(n)]
         raise Unsupported(f"sql function {name}")
 
+    def _as_temporal(self, c: Cell):
+        if c.ty == STR:
+            t = self.temporal_lit(c)
+            if t is None:
+                raise Unsupported("date function on non-constant text")
+            return t
+        return c
+
+    def sql_date(self, c: Cell) -> Cell:
+        c = self._as_temporal(c)
+        if c.ty == NULLT:
+            return K.null_of(DATE)
+        if c.ty == DATE:
+            return c
+        if c.ty in (DT, DT0):
+            return Cell(DATE, c.null, c.val / K.US_DAY)
+        if c.ty == DTX:
+            return Cell(DATE, c.null, (c.val / 4) / K.US_DAY)
+        raise Unsupported(f"date({c.ty})")
+
+    def sql_datetime(self, c: Cell) -> Cell:
+        """datetime(x): 'YYYY-MM-DD HH:MM:SS' (no fractional part in the text)"""
+        c = self._as_temporal(c)
+        if c.ty == NULLT:
+            return K.null_of(DT0)
+        if c.ty == DATE:
+            return Cell(DT0, c.null, c.val * K.US_DAY)
+        if c.ty == DT0:
+            return c
+        raise Unsupported("datetime() of a value with fractional seconds (rounding)")
+
+    def strftime(self, e, ev, *, as_int):
+        _, _, args, _, _ = e
+        fmt = self.const_str(args[0])
+        if fmt is None or len(args) != 2:
+            raise Unsupported("strftime form")
+        x = [self._as_temporal(c) for c in ev(args[1])]
+        x = [self.decode_x(c) if c.ty == DTX else c for c in x]
+        fields = {"%Y": ("year", 4), "%m": ("month", 2), "%d": ("day", 2), "%H": ("hour", 2), "%M": ("minute", 2), "%S": ("second", 2), "%j": ("day_of_year", 3), "%w": ("dow0", 1)}
+        if fmt in fields:
+            fld, width = fields[fmt]
+            out = []
+            for c in x:
+                if c.ty not in TEMPORAL and c.ty != NULLT:
+                    raise Unsupported(f"strftime on {c.ty}")
+                if c.ty == DATE and fld in ("hour", "minute", "second"):
+                    v = Cell(INT, c.null, z3.IntVal(0))
+                elif fld == "dow0":  # 0 = Sunday
+                    if c.ty == DT:
+                        # SQLite 3.40 computes %w from the Julian day rounded to milliseconds:
+                        # 23:59:59.9995 and later already count as the next day
+                        c = Cell(DT, c.null, (c.val + 500) / 1000 * 1000)
+                    w = K.temporal_field(c, "day_of_week")
+                    v = Cell(INT, w.null, w.val % 7) if w.ty != NULLT else w
+                else:
+                    v = K.temporal_field(c, fld)
+                if as_int or v.ty == NULLT:
+                    out.append(v)
+                else:
+                    out.append(Cell(STR, v.null, S.pad(v.val, width)))
+            return out
+        if as_int:
+            raise Unsupported(f"CAST(strftime({fmt!r})) AS INTEGER")
+        # a full timestamp format: treated as a conversion between the text forms
+        if fmt == "%Y-%m-%d %H:%M:%S.000000":
+            out = []
+            for c in x:
+                if c.ty == NULLT:
+                    out.append(K.null_of(DT))
+                elif c.ty == DATE:
+                    out.append(Cell(DT, c.null, c.val * K.US_DAY))
+                elif c.ty in (DT, DT0):
+                    out.append(Cell(DT, c.null, c.val - c.val % 1_000_000))
+                else:
+                    raise Unsupported(f"strftime on {c.ty}")
+            return out
+        raise Unsupported(f"strftime format {fmt!r}")
+
     def aggregate(self, name, argcells, star, gctx):
         if name == "count":
             if star or not argcells:
                 return K.agg(gctx, "len", [None] * gctx.n)
             return K.agg(gctx, "count", argcells[0])
         x = argcells[0]
+        if any(c.ty == DTX for c in x) and name in ("min", "max"):
+            raise Unsupported("aggregate min/max over mixed temporal text forms")
         if name == "sum":
             return K.agg(gctx, "sum", x, empty="null")
         if name == "avg":
